@@ -24,22 +24,23 @@ type Property struct {
 
 // propImports: rules of other properties that also decide a clause of this one (see importRules).
 var propImports = map[string][][]string{
-	"C01": {{"C02", "ADMISSIBLE", "CLUSTER", "RUNES", "SPLIT", "UNQUOTE"}, {"C19", "NOFLAG"}, {"C11", "KIND", "SIZE", "EXACT-STORE", "ERR", "TAG"}, {"C03", "TERMINATOR"}, {"C05", "FLAGS"}},
-	"C02": {{"C03", "SYNTAX"}},
+	"C01": {{"C02", "ADMISSIBLE", "CLUSTER", "RUNES", "SPLIT", "UNQUOTE"}, {"C19", "NOFLAG"}, {"C11", "KIND", "SIZE", "EXACT-STORE", "ERR", "TAG"}, {"C03", "TERMINATOR"}, {"C05", "FLAGS", "ENVKEY"}},
+	"C02": {{"C03", "SYNTAX"}, {"C19", "MODEL"}},
 	"C03": {{"C02", "ADMISSIBLE", "CLUSTER", "RUNES"}, {"C10", "BEFORE-COMMANDS"}, {"C08", "SCOPE"}},
-	"C04": {{"C09", "ERR-recovery"}},
-	"C05": {{"C01", "REARM"}},
+	"C04": {{"C09", "ERR-recovery"}, {"C08", "SCOPE"}, {"C20", "TEXT"}},
+	"C05": {{"C01", "REARM"}, {"C19", "MODEL"}},
 	"C06": {{"C10", "BEFORE-COMMANDS"}, {"C19", "MODEL"}},
 	"C07": {{"C09", "ERR-recovery"}, {"C02", "SPLIT"}, {"C08", "SCOPE"}, {"C19", "NOFLAG"}, {"C05", "ENVKEY"}},
 	"C08": {{"C02", "RUNES"}, {"C19", "MODEL"}, {"C03", "PASSAFTER"}},
-	"C09": {{"C06", "WALK", "SELECT", "POSITIONAL", "GATE"}, {"C19", "MODEL"}, {"C08", "SCOPE"}, {"C10", "BEFORE-COMMANDS"}, {"C04", "ERR-kept"}},
-	"C10": {{"C03", "TERMINATOR", "PASSAFTER"}, {"C02", "CLUSTER", "RUNES"}},
-	"C11": {{"C02", "NEGATIVE"}, {"C05", "CLEAR"}, {"C04", "TYPED"}},
+	"C09": {{"C06", "WALK", "SELECT", "POSITIONAL", "GATE"}, {"C19", "MODEL"}, {"C08", "SCOPE", "DIAGNOSE"}, {"C10", "BEFORE-COMMANDS"}, {"C04", "ERR-kept"}, {"C05", "FLAGS"}},
+	"C10": {{"C03", "TERMINATOR", "PASSAFTER"}, {"C02", "CLUSTER", "RUNES"}, {"C11", "UNMARSHAL"}},
+	"C11": {{"C02", "NEGATIVE"}, {"C05", "CLEAR"}, {"C04", "TYPED"}, {"C06", "RESULT"}, {"C10", "ORDER"}},
 	"C12": {{"C13", "FUNNEL"}, {"C11", "TAG"}},
-	"C13": {{"C05", "INI"}},
-	"C14": {{"C13", "PRIORITY"}},
-	"C16": {{"C17", "UNIT"}},
+	"C13": {{"C05", "INI"}, {"C14", "LONGLINE"}},
+	"C14": {{"C13", "PRIORITY", "SECTION"}, {"C11", "MAP"}},
+	"C16": {{"C17", "UNIT"}, {"C05", "ENVKEY"}},
 	"C17": {{"C16", "ATTR", "MASK"}},
+	"C18": {{"C08", "SCOPE"}},
 	"C19": {{"C05", "ENVKEY"}, {"C06", "POSITIONAL"}},
 	"C20": {{"C16", "PRED"}},
 }
